@@ -72,6 +72,8 @@ def make_operand(kind, system, rows, momentum, spelling="generic", extra=False, 
     if dtype == "i64":
         rows = [tuple(float(round(x)) for x in r) for r in rows]
         dt = numpy.int64
+    if dtype == "be" and kind in build.NP_LAYOUTS + build.NP_VIEW_LAYOUTS:
+        dt = numpy.dtype(">f8")  # non-native byte order (files written on another architecture); Awkward rejects such buffers
     if kind == "record":
         flat = build.ak_flat(system, rows, momentum, spelling, None, alt, dtype=dt)
         return flat[index]
